@@ -1053,3 +1053,7 @@ m('C10', 'find_head_search_then_parallel', 'src/core/map_fil_find.rs', """      
             let head = iter.ids_and_values().take(8).map(|x| (x.0, map(x.1))).find(|x| filter(&x.1));
             head.or(par_map_fil_find(params, iter, map, filter))
         }""", 'C05-OUTSIDE')
+m('C13', 'map_col_task_buffered_pull', 'src/core/map_col.rs', """            while let Some(chunk) = iter.next_chunk(c) {
+                let begin_idx = offset + chunk.begin_idx;""", """            let mut buffered = iter.buffered_iter(c);
+            while let Some(chunk) = buffered.next() {
+                let begin_idx = offset + chunk.begin_idx;""", 'C13-BUFSITE')
